@@ -226,7 +226,7 @@ PROPS["C12"] = dict(
     kani=[KaniSet("src/request.rs", "c03_request.rs", [
         Harness("c03_request_classify", "C03.request.classify", "C", "every (type alias, scheme, party) of the 24-entry alias table x 9 schemes; string loops bounded by the longest literal (unwind 20, unwinding assertions on)"),
     ])],
-    witness=["c12_requests.rs", "c12_model.rs"],
+    witness=["c12_requests.rs", "c12_model.rs", "c12_hosts_model.rs"],
     trusted=["url_parser: scheme characters (parse_scheme), port/IPv6 handling, IDN/punycode, percent-encoding, registrable-domain lookup (addr/PSL) - NOT under contract; under contract (unit c12_userinfo): where the userinfo ends (Parser::parse_userinfo, which only appends to the buffer) and where the host ends (the scanning loop of Parser::parse_host, R7 block lift); (unit c12_offsets) the three byte offsets of Hostname: Hostname::parse, Parser::parse_url, parse_with_scheme, after_double_slash, parse_non_special, Hostname::host_str / has_host and the Range slice; of parse_host's tail the write of the host (lower case when ASCII, IDNA mapping otherwise) and the reported buffer length are under contract (R7 block lift), the take/collect that removes tab / newline from the host text is not",
              "UTF-8 facts (axioms, unit c12_offsets): the encoding of a concatenation is the concatenation of the encodings; the encoding of a character prefix ends on a character boundary; in-place ASCII lower-casing changes no character's encoded length; a by-value `mut self` receiver is spelled as a named parameter (R1)",
              "the `Input` character iterator (a wrapper around str::Chars) is a trusted abstraction: next() yields the characters in order, clone() forks the position, next_utf8() also skips tab/newline; str::chars() materialised (R5); what is written to the serialisation buffer is not part of the contract",
